@@ -257,7 +257,9 @@ func runServe(r *run) error {
 			case 2:
 				p = "mod" + "/" + segs[g.intn(len(segs))] // another module's name in front
 			case 3:
-				p = []string{"/etc/passwd", filepath.Join(root, "outside-area") + "/", "/", "..", "../outside-area/", modName + "/..", modName + "/../outside-area/", modName + "//../"}[g.intn(8)]
+				sib := map[string]string{"mo": "mod", "mod": "mod2", "mod2": "mod"}[modName]
+				p = []string{"/etc/passwd", filepath.Join(root, "outside-area") + "/", "/", "..", "../outside-area/", modName + "/..", modName + "/../outside-area/", modName + "//../",
+					modName + "/../" + sib + "/", modName + "/d/../../" + sib + "/d/", modName + "/../" + sib + "/d/"}[g.intn(11)]
 			case 4:
 				p = segs[g.intn(len(segs))]
 			default:
@@ -270,8 +272,15 @@ func runServe(r *run) error {
 		}
 		opt := []string{"-r", "-rl", "-rc", "-rlc", "-rlptgoD"}[g.intn(5)]
 		flags := append([]string{"--server", "--sender", opt, "."}, paths...)
+		// canaries 0,1: the outside area; 2..: file content of the sibling modules
+		cs := append([]string{}, canaries...)
+		for _, other := range []string{"mo", "mod", "mod2"} {
+			if other != modName {
+				cs = append(cs, hx("inside "+other+" "))
+			}
+		}
 		sp := sessionSpec{Kind: "pullraw", ID: id, TimeoutMs: 20000,
-			PullRaw: &pullRawSpec{Modules: mods, Module: modName, Flags: flags, Canaries: canaries, Fetch: g.chance(60)}}
+			PullRaw: &pullRawSpec{Modules: mods, Module: modName, Flags: flags, Canaries: cs, Fetch: g.chance(60)}}
 		// is the request inside the model's domain?  (no symlink on the way, directory-backed module)
 		wg.Add(1)
 		go func() {
